@@ -266,34 +266,37 @@ Definition calibration_failed (k : kcfg) (d : dev) : dev :=
   let d := fl_clear (fl_set d FLAG_CALIBRATION_FAILED) FLAG_CALIBRATION_IN_PROGRESS in
   set_relay k d RELAY_OFF true false.
 
-(* supla_esp_gpio_rs_autocalibrate; the boolean result tells the caller to re-read the travel time *)
-Definition autocalibrate (k : kcfg) (d : dev) (in_move : bool) : dev * bool :=
-  if ac_step d =? 0 then (fl_clear d FLAG_CALIBRATION_IN_PROGRESS, false) else
-  let d := fl_set d FLAG_CALIBRATION_IN_PROGRESS in
-  if (up_time d <? AUTOCAL_FILTERING_MS * 1000) && (down_time d <? AUTOCAL_FILTERING_MS * 1000) then (d, false) else
-  if ac_step d =? 1 then
-    if negb in_move then (set_relay k (set_button_req (set_step d 2) true) RELAY_DOWN false false, false)
-    else if AUTOCAL_MAX_MS * 1000 <? up_time d then (calibration_failed k d, false) else (d, false)
-  else if ac_step d =? 2 then
-    if negb in_move then
-      if down_time d <? AUTOCAL_MIN_MS * 1000 then (calibration_failed k d, false)
-      else
-        let d := set_step d 3 in
-        let d := upd_cfgt d (time1 d) (time2 d) (aot d) (down_time d / 1000) in
-        (set_relay k (set_button_req d true) RELAY_UP false false, true)
-    else if AUTOCAL_MAX_MS * 1000 <? down_time d then (calibration_failed k d, false) else (d, false)
-  else if ac_step d =? 3 then
-    if negb in_move then
-      if up_time d <? AUTOCAL_MIN_MS * 1000 then (calibration_failed k d, false)
-      else
-        let d := set_step d 0 in
-        let d := upd_cfgt d (time1 d) (time2 d) (up_time d / 1000) (act d) in
-        let d := upd_pt d 100 (if tilt_sup k then 100 else 0) in
-        let d := if tilt_sup k then d else fl_clear d FLAG_TILT_IS_SET in
-        let d := fl_clear d FLAG_CALIBRATION_IN_PROGRESS in
-        (set_relay k (set_button_req d true) RELAY_OFF false false, true)
-    else if AUTOCAL_MAX_MS * 1000 <? up_time d then (calibration_failed k d, false) else (d, false)
+(* supla_esp_gpio_rs_autocalibrate; the boolean result tells the caller to re-read the travel time.
+   One function per step (state d already carries the CALIBRATION_IN_PROGRESS flag). *)
+(* step 1: up until the sensor reports "not moving" *)
+Definition ac_step1 (k : kcfg) (d : dev) (in_move : bool) : dev * bool :=
+  if negb in_move then (set_relay k (set_button_req (set_step d 2) true) RELAY_DOWN false false, false)
+  else if AUTOCAL_MAX_MS * 1000 <? up_time d then (calibration_failed k d, false) else (d, false).
+(* step 2: down, measuring the closing time *)
+Definition ac_step2_ok (k : kcfg) (d : dev) : dev :=
+  set_relay k (set_button_req (upd_cfgt (set_step d 3) (time1 d) (time2 d) (aot d) (down_time d / 1000)) true) RELAY_UP false false.
+Definition ac_step2 (k : kcfg) (d : dev) (in_move : bool) : dev * bool :=
+  if negb in_move then
+    if down_time d <? AUTOCAL_MIN_MS * 1000 then (calibration_failed k d, false) else (ac_step2_ok k d, true)
+  else if AUTOCAL_MAX_MS * 1000 <? down_time d then (calibration_failed k d, false) else (d, false).
+(* step 3: up, measuring the opening time; success: fully open, calibrated, motor off *)
+Definition ac_done (k : kcfg) (d : dev) : dev :=
+  let d1 := upd_pt (upd_cfgt (set_step d 0) (time1 d) (time2 d) (up_time d / 1000) (act d)) 100 (if tilt_sup k then 100 else 0) in
+  fl_clear (if tilt_sup k then d1 else fl_clear d1 FLAG_TILT_IS_SET) FLAG_CALIBRATION_IN_PROGRESS.
+Definition ac_step3 (k : kcfg) (d : dev) (in_move : bool) : dev * bool :=
+  if negb in_move then
+    if up_time d <? AUTOCAL_MIN_MS * 1000 then (calibration_failed k d, false)
+    else (set_relay k (set_button_req (ac_done k d) true) RELAY_OFF false false, true)
+  else if AUTOCAL_MAX_MS * 1000 <? up_time d then (calibration_failed k d, false) else (d, false).
+Definition ac_steps (k : kcfg) (d : dev) (in_move : bool) : dev * bool :=
+  if (up_time d <? AUTOCAL_FILTERING_MS * 1000) && (down_time d <? AUTOCAL_FILTERING_MS * 1000) then (d, false)
+  else if ac_step d =? 1 then ac_step1 k d in_move
+  else if ac_step d =? 2 then ac_step2 k d in_move
+  else if ac_step d =? 3 then ac_step3 k d in_move
   else (d, false).
+Definition autocalibrate (k : kcfg) (d : dev) (in_move : bool) : dev * bool :=
+  if ac_step d =? 0 then (fl_clear d FLAG_CALIBRATION_IN_PROGRESS, false)
+  else ac_steps k (fl_set d FLAG_CALIBRATION_IN_PROGRESS) in_move.
 
 (* the double sub-expressions of the "change position while tilting" branch of task_processing *)
 Definition fb_tilting_time (tct delta_tilt : Z) : Z :=
